@@ -32,6 +32,10 @@ const (
 	replyDeadline // the request timed out (error wraps context.DeadlineExceeded) although the caller's context is alive
 )
 
+// replyOtherFork: a header request by number is answered by an RPC node that is (briefly) on another
+// fork: same number, different hash. Only meaningful for HeaderByNumber(number).
+const replyOtherFork = 11
+
 var errInjectedTimeout = fmt.Errorf("injected RPC timeout (Client.Timeout exceeded while awaiting headers): %w", context.DeadlineExceeded)
 
 var errInjectedRPC = errors.New("injected transient RPC error")
@@ -189,6 +193,13 @@ func (w *World) Kill() {
 	}
 }
 
+// Alive reports whether incarnation `epoch` is the running one.
+func (w *World) Alive(epoch int) bool {
+	w.mu.Lock()
+	defer w.mu.Unlock()
+	return !w.dead && w.Epoch == epoch
+}
+
 func (w *World) Revive() {
 	w.mu.Lock()
 	w.dead = false
@@ -274,7 +285,11 @@ func (c *FakeClient) HeaderByNumber(ctx context.Context, number *big.Int) (*type
 		return nil, ethereum.NotFound
 	}
 	c.obs("HeaderByNumber", desc, mode, b)
-	return types.CopyHeader(b.Header), nil
+	h := types.CopyHeader(b.Header)
+	if mode == replyOtherFork && number != nil && number.Sign() >= 0 {
+		h.Extra = append([]byte("other-fork:"), h.Extra...)
+	}
+	return h, nil
 }
 
 func (c *FakeClient) BlockByNumber(ctx context.Context, number *big.Int) (*types.Block, error) {
